@@ -340,6 +340,20 @@ def effects_run(fns, table, comb):
     for tl, fl in sorted(readers.items()):
         failures.append(dict(fn='*', kind='%d memoised parsers depend on thread-local %s which is not part of the memo key (first: %s)' % (len(fl), tl, fl[0].name),
                              label='C17.key.%s' % tl, props=['C17'], repo='%s:%d' % (fl[0].file, fl[0].line), spec='gvc', snippet='', notes=[]))
+    # direct accesses to parser state from production bodies: the accessors a production calls itself.
+    # The committed list is what K7 stands for (plus the transitive read through is_keyword); any other direct access
+    # is a new dependency of a memoised result on state outside the key
+    ACC = {'current_version', 'begin_keywords', 'end_keywords', 'clear_version', 'is_keyword', 'in_directive', 'begin_directive', 'end_directive', 'clear_directive'}
+    base_p = os.path.join(VERIF, 'gvc', 'baseline.json')
+    allowed = set(tuple(x) for x in json.load(open(base_p)).get('direct_state_access', [])) if os.path.exists(base_p) else set()
+    for f in fns:
+        if f.ast and f.name not in ACC and f.name != 'init':
+            for c in sorted(called_names(f.ast) & ACC):
+                checked += 1
+                if (f.name, c) not in allowed:
+                    failures.append(fail(f.name, 'C17.direct-state-access.%s.%s' % (f.name, c),
+                                         '%s consults/changes parser state through %s(): a result that depends on state outside the memo key (and a side effect that a memo hit skips)' % (f.name, c),
+                                         ['C17', 'C07'], f))
     # key definition
     key_ok = False
     for rel, raw in crate_text('sv-parser-parser'):
